@@ -123,6 +123,8 @@ def _task(args):
                         except Exception:  # noqa: BLE001
                             continue
                         st["binding"] += 1
+                        if m is not None and m.PGN != pgn:
+                            continue          # the entry point made another PGN of the frames: not the dispatcher's doing (C05/C07)
                         if g2 != want and g2 is not None:
                             vios.append(mkv(pgn, p, nbytes, g2, want, f"public path through {ename} (message.id)"))
     # payloads that carry a definition's match values but are rejected by its own range checks (reserved codes, values
@@ -143,6 +145,19 @@ def _task(args):
                 want = expect(p)
                 if isinstance(got, str) and got != want:
                     vios.append(mkv(pgn, p, nbytes, got, want, f"public path (message.id), field {f.id} at a raw its definition rejects or reserves"))
+    # every match value with one bit flipped (a mask that is too narrow, or a comparison at the wrong offset, lets one through)
+    for di, d in enumerate(ds):
+        if di % nparts != part:
+            continue
+        base = apply(fills[0], [(f.offset, f.bits, f.match) for f in d.match_fields])
+        for f in d.match_fields:
+            for bit in range(f.bits):
+                p = apply(base, [(f.offset, f.bits, f.match ^ (1 << bit))])
+                got = observe_public(dec, pgn, p, nbytes)
+                st["binding"] += 1
+                want = expect(p)
+                if (isinstance(got, str) or got is None) and got != want:
+                    vios.append(mkv(pgn, p, nbytes, got, want, f"public path (message.id), match field {f.id} with bit {bit} flipped"))
     saved = patch(pgn, ds)
     via = "recorders around the per-definition functions"
     try:
